@@ -216,6 +216,12 @@ class Ctx:
     def note(self, name, n=1):
         self.notes[name] += n
 
+    relaxed = False
+
+    def same_obs(self, a, b):
+        """observations of a twin pair: identical text, or - in a relaxed run - equal up to the float tolerance"""
+        return canon(a) == canon(b) or (self.relaxed and approx_same(a, b, 1e-9))
+
     # -- verdicts
     def violation(self, kind, sig, detail, step=None):
         """Report a violation.  Returns (instead of raising) only for a listed known finding."""
@@ -295,6 +301,9 @@ def run_case(mod, case, known_sigs=()):
                         seams.PAUSED[0] = False
                 if isinstance(case, dict) and case.get("fork"):
                     ctx.fork_plan = dict(case["fork"])
+                # a restored snapshot or a retyped parameter may move a float by an ulp (another memory layout, another scalar type):
+                # twins of such a run are compared with the float tolerance instead of digit by digit
+                ctx.relaxed = isinstance(case, dict) and bool(case.get("fork") or case.get("retype") is not None)
                 mod.run(case, ctx)
     except Violation as v:
         out["violation"] = v.as_dict()
